@@ -24,7 +24,7 @@ RULE = ('Hypothesis draws a backend configuration (sample rate, 8..64 branches, 
 ASSUMPTIONS = ['fine bin k of coarse channel c (after fftshift) is at OBSFREQ + (c-(nchan-1)/2)*CHAN_BW + (k-L/2)*CHAN_BW/L',
                'PFB spectrum n is centred num_taps/2 windows after its first sample', 'tone in the DC-straddling channel and exact channel centres excluded (property)']
 REQUIRED_CLASSES = ['asc', 'desc', 'start_chan=0', 'start_chan>0', 'pols=1', 'pols=2', 'chirp', 'L!=n', 'quicklook',
-                    'quicklook_unpadded', 'quicklook_aligned', 'quicklook_padded', 'array']
+                    'quicklook_unpadded', 'quicklook_aligned', 'quicklook_padded', 'array', 'quantity_arguments', 'record_after_aborted_record']
 
 
 @st.composite
@@ -50,7 +50,15 @@ def strategy_(draw, tier):
     # the coarse channel straddling DC (channel 0 of the filterbank) cannot host a real tone
     if c['start_chan'] == 0 and c['num_chans'] == 1:
         c['start_chan'] = 1 if c['B'] // 2 > 1 else 0
-    return dict(c=c, L=L, n_int=draw(st.integers(1, 4)),
+    abort_first = draw(st.sampled_from([False, False, True]))
+    if abort_first:
+        # the interesting observable after an aborted recording is a drifting tone on the first polarisation
+        c['npol'], c['array'], c['na'], c['delays'] = 2, False, 1, None
+        c['nblocks'] = max(c['nblocks'], 2)
+        t['pol'] = 0
+        t['bins_per_spectrum'] = draw(st.sampled_from([1, -1])) * draw(gen.finite(0.3, 1.5))
+    return dict(c=c, L=L, n_int=draw(st.integers(1, 4)), units=draw(st.sampled_from([None, None, 'GHz', 'MHz', 'kHz'])),
+                abort_first=abort_first,
                 directio=draw(st.sampled_from(['absent', 0, 1, 1])), target_mod=draw(st.sampled_from([None, 0, 5])))
 
 
@@ -116,15 +124,22 @@ def run_case(case, ctx):
     if L != n_int:
         obs.cls('L!=n')
     ant_idx = 0
+    from astropy import units as u
+    units = case.get('units')
+    fch1_arg, sr_arg = c['fch1'], c['sr']
+    if units:
+        obs.cls('quantity_arguments')
+        fch1_arg = (c['fch1'] / getattr(u, units).to(u.Hz)) * getattr(u, units)
+        sr_arg = (c['sr'] * 1e-6) * u.MHz
     if c['array']:
         obs.cls('array')
-        src = AN.MultiAntennaArray(num_antennas=c['na'], sample_rate=c['sr'], fch1=c['fch1'], ascending=c['ascending'],
+        src = AN.MultiAntennaArray(num_antennas=c['na'], sample_rate=sr_arg, fch1=fch1_arg, ascending=c['ascending'],
                                    num_pols=c['npol'], delays=list(c['delays']), t_start=c['t_start'], seed=c['seed'])
         ant_idx = t['ant'] % c['na']
         all_streams = [s for a in src.antennas for s in a.streams]
         tone_streams = src.antennas[ant_idx].streams
     else:
-        src = AN.Antenna(sample_rate=c['sr'], fch1=c['fch1'], ascending=c['ascending'], num_pols=c['npol'],
+        src = AN.Antenna(sample_rate=sr_arg, fch1=fch1_arg, ascending=c['ascending'], num_pols=c['npol'],
                          t_start=c['t_start'], seed=c['seed'])
         all_streams = tone_streams = list(src.streams)
     for s in all_streams:
@@ -134,6 +149,24 @@ def run_case(case, ctx):
     # one sub-block per block and statistics taken once from the whole first block: with statistics refreshed per
     # tiny sub-block the requantiser's mean removal would distort a slow tone (the caveat the property itself makes)
     be = volt.build_backend(c, src, nsb=1, stats_common_prefix=False, period=-1)
+    t_rec = c['t_start']
+    if case.get('abort_first') and not c['array'] and c['npol'] == 2 and c['nblocks'] >= 2 and t['pol'] % 2 == 0:
+        # a first recording dies inside the y stream after x was already sampled; the antenna is then used again
+        obs.cls('record_after_aborted_record')
+        state = {'n': 0, 'armed': True}
+
+        def flaky(ts, state=state):
+            state['n'] += 1
+            if state['armed'] and state['n'] == 2:
+                raise RuntimeError('source failure')
+            return np.zeros(len(ts))
+        src.y.add_signal(flaky)
+        try:
+            volt.record(be, ctx.path('aborted'), c, header_dict={})
+        except RuntimeError:
+            pass
+        state['armed'] = False
+        t_rec = float(src.t_start)          # the second observation starts at the antenna's clock
     hd = {}
     if case['directio'] != 'absent':
         hd['DIRECTIO'] = case['directio']
@@ -167,15 +200,20 @@ def run_case(case, ctx):
         for p in range(npol_h):
             power[ch] += fine_spectra(v[ch, :, p], L)
     tot = power.sum(axis=1)
-    ch_all, k_f = np.unravel_index(int(np.argmax(tot)), tot.shape)
-    ant_f, ch_f = divmod(int(ch_all), nchan_h)          # antenna-major channel layout
     if nants != c['na']:
         obs.fail('header_nants', f'{nants} vs {c["na"]}')
         return obs
-    if ant_f != ant_idx:
-        obs.fail('tone_in_wrong_antenna', f'found in antenna {ant_f}, injected into {ant_idx} of {c["na"]}')
+    # every antenna/polarisation is requantised to the same target width, so absolute power is not comparable between
+    # antennas: the antenna holding the tone is the one with the largest peak-to-median contrast (antenna-major layout)
+    contrast = [float(tot[a * nchan_h:(a + 1) * nchan_h].max() / max(np.median(tot[a * nchan_h:(a + 1) * nchan_h]), 1e-300))
+                for a in range(nants)]
+    ant_f = int(np.argmax(contrast))
+    if not chirp and contrast[ant_idx] >= 20 and ant_f != ant_idx:
+        obs.fail('tone_in_wrong_antenna', f'largest contrast in antenna {ant_f} ({contrast[ant_f]:.1f}), injected into {ant_idx} ({contrast[ant_idx]:.1f}) of {c["na"]}')
         return obs
-    power = power[ant_f * nchan_h:(ant_f + 1) * nchan_h]
+    power = power[ant_idx * nchan_h:(ant_idx + 1) * nchan_h]
+    tot = tot[ant_idx * nchan_h:(ant_idx + 1) * nchan_h]
+    ch_f, k_f = np.unravel_index(int(np.argmax(tot)), tot.shape)
     snr = float(tot.max() / max(np.median(tot), 1e-300))
     obs.nontrivial = snr >= 20 and (c['start_chan'] > 0 or not c['ascending'])
 
@@ -189,11 +227,13 @@ def run_case(case, ctx):
             obs.fail(f'tone_misplaced:{"asc" if c["ascending"] else "desc"}:{"sc0" if c["start_chan"] == 0 else "sc>0"}',
                      f'tone {f_tone!r} found at {f_found!r} (coarse {ch_f} fine {k_f} of L={L}), off by {(f_found - f_tone) / fine_bw:.2f} fine bins '
                      f'= {(f_found - f_tone) / chan_bw_abs:.3f} coarse channels; recorded idx {idx} beta {t["beta"]} start_chan {c["start_chan"]} nch {nch}')
+    elif abs(t['beta'] + sign * drift * ((t_rec - c['t_start']) + dur) / chan_bw_abs) > 0.5 - 1.6 / L:
+        obs.count('chirp_left_channel_after_aborted_recording')       # drifted on during the aborted run: nothing to track
     else:
         # instantaneous frequency of successive fine spectra
         worst = 0.0
         for s in range(nspec):
-            t_mid = (s * L + L / 2 + c['taps'] / 2) * tbin
+            t_mid = (t_rec - c['t_start']) + (s * L + L / 2 + c['taps'] / 2) * tbin
             f_exp = f_tone + drift * t_mid
             # a chirp sweeping through the channel centre biases the requantiser's mean estimate, which leaves a
             # DC spur in bin L/2 (the property's own caveat about mean removal): do not judge spectra in which the
